@@ -11,15 +11,18 @@
   * `parse_print`       the recursive-descent reader (depth-directed, as `harness/props/c19.py::parse_rules`)
                         turns the lines into the nested rules `rulesOf t` and consumes them entirely;
   * `rules_eval`        applying `rulesOf t` to a point is `Tree.route` (= `Tree.predict` on one row);
-  * `print_parse_eval`  the composition: read the printed text back, apply it to any point, get `predict`;
-  * `print_parse_eval_distinct`  the same with the label/threshold readers *derived* from "labels of used
+  * `print_parse_eval`  the composition: read the printed lines back, apply them to any point, get `predict`;
+  * `split_print`, `print_parse_eval_text`  the same starting from the output as ONE string (every line followed
+                        by a newline): cutting it at newlines gives the lines back when no label has a newline;
+  * `print_parse_eval_distinct`  the composition with the label/threshold readers *derived* from "labels of used
                         features are pairwise distinct" and "different thresholds print differently";
-  * `default_names_distinct`  the default labels `X[:, f]` are pairwise distinct;
+  * `default_names_distinct`, `user_names_distinct`  the default labels `X[:, f]`, and user labels taken from a
+                        list without repetition, are pairwise distinct;
   * `wellFormed_init`, `wellFormed_addChild`  the hypothesis `WellFormed` holds for every tree `fit` can build.
 
-  Trusted (stated as hypotheses): Python's `repr(float)` round-trips (`ReadBack.thr`) and contains no blank
-  (`ThrNoBlank`).  Not covered: cutting the captured stdout into lines (a feature name containing a newline
-  would break it; the harness does this step on the real output).
+  Trusted (stated as hypotheses): Python's `repr(float)` round-trips (`ReadBack.thr` / `ThrDistinct`) and contains
+  neither blank nor newline (`ThrNoBlank`, `NoNewline`).  Feature labels are arbitrary strings (blanks, `<=`, `| `
+  allowed); only a newline inside a label is excluded, and only for the one-string statement.
 -/
 import GemVerif.Lemmas.KauriC19
 
@@ -93,6 +96,27 @@ theorem print_parse_eval {t : Tree α} (ht : WellFormed t) {sh : α → String} 
   rw [parseText, read_print ht hnb nm fuel 0 ht.pos, Option.bind_some, parse_print ht sh nm fuel hfuel,
     Option.map_some, rules_eval ht hrb x fuel 0 ht.pos (by omega)]
 
+/-- Cutting the printed text (every line followed by a newline, as `print` writes it) at newlines gives back the
+    printed lines, when no label contains a newline. -/
+theorem split_print {t : Tree α} (ht : WellFormed t) {sh : α → String} {nm : Int → String}
+    (hnl : NoNewline t sh nm) (fuel node : Nat) (hnode : node < t.nNodes) :
+    splitLines (textOf (t.printNode sh nm fuel node)) = t.printNode sh nm fuel node := by
+  apply splitLines_textOf
+  rw [print_eq_render]
+  intro s hs
+  obtain ⟨l, hl, rfl⟩ := List.mem_map.mp hs
+  exact render_noNewline l (printLines_noNewline ht hnl fuel node hnode l hl)
+
+/-- **C19 on the text as one string.**  `textOf (t.printNode …)` is what `print_kauri_tree` writes to stdout;
+    `parseString` cuts it at newlines, reads every line, and reads the nested rules. -/
+theorem print_parse_eval_text {t : Tree α} (ht : WellFormed t) {sh : α → String} {nm : Int → String}
+    {colOf : String → Nat} {readThr : String → α} (hrb : ReadBack t sh nm colOf readThr)
+    (hnb : ThrNoBlank t sh) (hnl : NoNewline t sh nm) (x : Nat → α) (fuel : Nat) (hfuel : t.nNodes ≤ fuel) :
+    (parseString (textOf (t.printNode sh nm fuel 0))).map (evalRules colOf readThr x)
+      = some (t.route x fuel 0) := by
+  rw [parseString, split_print ht hnl fuel 0 ht.pos]
+  exact print_parse_eval ht hrb hnb x fuel hfuel
+
 /-- The same statement on structured lines (no assumption on the threshold text). -/
 theorem print_parse_eval_lines {t : Tree α} (ht : WellFormed t) {sh : α → String} {nm : Int → String}
     {colOf : String → Nat} {readThr : String → α} (hrb : ReadBack t sh nm colOf readThr)
@@ -152,6 +176,13 @@ open KauriC19.Example
 example (x : Nat → Rat) :
     (parseText (tree.printNode sh nm 3 0)).map (evalRules colOf readThr x) = some (if x 2 ≤ 1/2 then 0 else 1) := by
   rw [print_parse_eval wf readBack noBlank x 3 (Nat.le_refl 3)]
+  simp [Tree.route, tree, Tree.addChild, Tree.init, RealLike.le]
+
+/-- the same through the one-string text -/
+example (x : Nat → Rat) :
+    (parseString (textOf (tree.printNode sh nm 3 0))).map (evalRules colOf readThr x)
+      = some (if x 2 ≤ 1/2 then 0 else 1) := by
+  rw [print_parse_eval_text wf readBack noBlank noNewline x 3 (Nat.le_refl 3)]
   simp [Tree.route, tree, Tree.addChild, Tree.init, RealLike.le]
 
 /-- the distinctness hypotheses of `print_parse_eval_distinct` hold too (a single rule) -/
